@@ -186,7 +186,7 @@ func expandPath(path string) string {
 // ListDatabases returns databases found in data directory (quick scan)
 func ListDatabases(dataDir string) []DatabaseInfo {
 	pgDatabase := filepath.Join(dataDir, "global", "1262")
-	data, err := os.ReadFile(pgDatabase)
+	data, err := readRegularFile(pgDatabase)
 	if err != nil {
 		return nil
 	}
